@@ -4,10 +4,14 @@
 (*    "shape":"same"|<difference>,"leaves":[{"p":path,"t":type,"c":class},..]}     *)
 (* The step guard is the property relation FlatOK of ObfP; a case the property     *)
 (* does not permit is reported as <<"REJECT", line, id, {offending leaves}>> and     *)
-(* validation goes on.                                                             *)
-EXTENDS ObfP, TraceLib
+(* validation goes on.  In the same pass the output (class at every leaf, "otree")  *)
+(* is compared with what the implementation-shaped model ObfI computes for the      *)
+(* document ("doc"); a difference is reported as <<"DRIFT", line, id>>.             *)
+EXTENDS ObfI, TraceLib
 
 VARIABLE l
+
+NoKeys == <<>>      \* the constants of the bounded model are not used by the validation
 
 Ev == TraceLog[l + 1]
 
@@ -19,12 +23,17 @@ Permitted(e) ==
 BadLeaves(e) == {i \in 1..Len(e.leaves) :
                     ~LeafOK(e.leaves[i].p, e.leaves[i].t, e.leaves[i].c, {e.excl[j] : j \in 1..Len(e.excl)}, e.entry)}
 
-TInit == l = 0
+LikeModel(e) == e.shape = "same" => e.otree = Obfuscate(e.doc, {e.excl[i] : i \in 1..Len(e.excl)}, e.entry)
+
+\* the variables of ObfI are not used by the validation
+TInit == l = 0 /\ doc = Leaf("s") /\ excl = {} /\ entry = "json" /\ ph = 1
 TNext == /\ l < TraceLen
-         /\ l' = l + 1
+         /\ l' = l + 1 /\ UNCHANGED vars
          /\ IF Permitted(Ev) THEN TRUE ELSE PrintT(<<"REJECT", l + 1, Ev.id, BadLeaves(Ev)>>)
 
-TraceSpec == TInit /\ [][TNext]_l
+         /\ IF LikeModel(Ev) THEN TRUE ELSE PrintT(<<"DRIFT", l + 1, Ev.id>>)
+
+TraceSpec == TInit /\ [][TNext]_<<l, vars>>
 HWM == Mark(l)
 Post == Report
 =============================================================================
